@@ -298,7 +298,6 @@ request of a running process only if a call reaches no state that outlives it be
 object. `Olla.Gen.State` is re-read from the source on every run: the package-level variables
 reachable from each function inside its package that the package changes after initialisation. -/
 theorem C11_tie_no_process_wide_state :
-    Olla.Spec.State.reachesOnly "anthropic.TransformResponse" [] = true ∧
-    Olla.Spec.State.reachesOnly "anthropic.TransformStreamingResponse" [] = true := by decide
+    Olla.Spec.State.reachesOnly "handlers.proxyHandler" [] = true := by decide
 
 end Olla.Props.C11
